@@ -377,11 +377,218 @@ def run(n=300, seed=1, tag="convert_check", exhaustive_docs=True, show=3):
     return res
 
 
+# ---------------------------------------------------------------- K3 under settings (Algo/ConvertS.v, C14F)
+NATIVE_TYPES = ["String", "u64", "::std::vec::Vec<String>", "::my::Thing", "bool"]
+IMPLS = [[], ["Display"], ["FromStr", "Display"], ["Default"]]
+
+
+def csettings(st):
+    def cimpls(l):
+        return tocoq.clist(l, lambda t: tocoq.TRAITS[t], "trait")
+    rep = tocoq.clist(sorted(st.get("replace", {}).items()),
+                      lambda kv: "(%s, (%s, %s))" % (tocoq.ustr(kv[0]), tocoq.ustr(kv[1]["type"]), cimpls(kv[1].get("impls", []))),
+                      "(ustring * (ustring * list trait))")
+    cnv = tocoq.clist(st.get("convert", []),
+                      lambda c: "(%s, (%s, %s))" % (tocoq.cschema(c["schema"]), tocoq.ustr(c["type"]), cimpls(c.get("impls", []))),
+                      "(schema * (ustring * list trait))")
+    pat = tocoq.clist(sorted(st.get("patch", {}).items()),
+                      lambda kv: "(%s, (%s, %s))" % (tocoq.ustr(kv[0]), tocoq.copt(kv[1].get("rename"), tocoq.ustr),
+                                                    tocoq.clist(kv[1].get("derives", []), tocoq.ustr, "ustring")),
+                      "(ustring * (option ustring * list ustring))")
+    return "(mkCs %s %s %s)" % (rep, cnv, pat)
+
+
+def type_positions(doc):
+    """subschemas the converter converts: definition bodies, property values, items, tuple items, map values"""
+    out = []
+
+    def walk(s):
+        if not isinstance(s, dict):
+            return
+        out.append(s)
+        for v in (s.get("properties") or {}).values():
+            walk(v)
+        it = s.get("items")
+        if isinstance(it, dict):
+            walk(it)
+        elif isinstance(it, list):
+            for v in it:
+                walk(v)
+        if isinstance(s.get("additionalProperties"), dict):
+            walk(s["additionalProperties"])
+    for v in doc["definitions"].values():
+        walk(v)
+    return out
+
+
+def annotate(rnd, s):
+    """annotations the cache must ignore, at the top and below"""
+    s = json.loads(json.dumps(s))
+    if isinstance(s, dict):
+        if rnd.random() < 0.5:
+            s["title"] = rnd.choice(["A title", "x"])
+        if rnd.random() < 0.3:
+            s["description"] = "words"
+        for v in (s.get("properties") or {}).values():
+            if isinstance(v, dict) and rnd.random() < 0.3:
+                v["description"] = "inner words"
+    return s
+
+
+def settings_for(rnd, doc, dump):
+    """a settings assignment drawn from the document's own definitions / positions / type names"""
+    st = {}
+    names = {int(k): e.get("name") for k, e in dump["entries"].items() if e.get("name")}
+    defs = sorted(doc["definitions"])
+    r2i = dump["ref_to_id"]
+    replaced_names = set()
+    if rnd.random() < 0.55:
+        d = rnd.choice(defs)
+        nm = names.get(r2i["#/" + d])
+        if nm:
+            st["replace"] = {nm: {"type": rnd.choice(NATIVE_TYPES), "impls": rnd.choice(IMPLS)}}
+            replaced_names.add(nm)
+    if rnd.random() < 0.6:
+        pos = [p for p in type_positions(doc) if "$ref" not in p]
+        if pos:
+            cs = rnd.choice(pos)
+            st["convert"] = [{"schema": annotate(rnd, cs), "type": rnd.choice(NATIVE_TYPES + ["::serde_json::Value"]),
+                              "impls": rnd.choice(IMPLS)}]
+            if rnd.random() < 0.3 and len(pos) > 1:      # a second conversion; an equal one must lose (first match wins)
+                cs2 = rnd.choice(pos)
+                st["convert"].append({"schema": annotate(rnd, cs2), "type": "::second::Choice", "impls": []})
+    if rnd.random() < 0.6:
+        cands = sorted(set(names.values()) - replaced_names)
+        pat = {}
+        for k in range(rnd.randrange(1, 3)):
+            if not cands:
+                break
+            tgt = rnd.choice(cands)
+            p = {}
+            if rnd.random() < 0.6:
+                p["rename"] = rnd.choice(["Renamed%d" % k, tgt + "X", "Z9"])
+            if rnd.random() < 0.7:
+                p["derives"] = rnd.choice([["PartialEq"], ["Eq", "PartialEq", "Eq"], ["Hash", "Ord", "PartialOrd"]])
+            if p:
+                pat[tgt] = p
+        if pat:
+            st["patch"] = pat
+    return st
+
+
+CURATED_SETTINGS = [
+    # (document, settings): replacement of a referenced definition; conversion at a property and inside a nullable;
+    # patch of an inline type; first conversion wins; Native whose last path segment is the definition's name
+    ({"definitions": {"A": {"type": "object", "properties": {"b": {"$ref": "#/definitions/B"}, "c": {"type": "array", "items": {"$ref": "#/definitions/B"}}}},
+                      "B": {"type": "object", "properties": {"deep": {"type": "object", "properties": {"x": {"type": "string"}}}}}}},
+     {"replace": {"B": {"type": "::my::B", "impls": ["Display"]}}}),
+    ({"definitions": {"A": {"type": "object", "properties": {"p": {"type": "string", "maxLength": 3, "description": "d"},
+                                                              "q": {"type": ["string", "null"], "maxLength": 3}},
+                            "required": ["p"]},
+                      "Tiny": {"type": "string", "maxLength": 3, "title": "tiny"}}},
+     {"convert": [{"schema": {"type": "string", "maxLength": 3}, "type": "::my::Tiny", "impls": ["FromStr"]},
+                  {"schema": {"type": "string", "maxLength": 3}, "type": "::never::Chosen", "impls": []}]}),
+    ({"definitions": {"Foo": {"type": "object", "properties": {"bar": {"type": "object", "properties": {"k": {"type": "integer"}}}}},
+                      "E": {"type": "string", "enum": ["a", "b"]}}},
+     {"patch": {"FooBar": {"rename": "Inner", "derives": ["Eq", "PartialEq", "Eq"]}, "E": {"derives": ["Hash"]}}}),
+    ({"definitions": {"A": {"type": "string", "minLength": 1}, "B": {"type": "string", "minLength": 1}}},
+     {"patch": {"A": {"rename": "B"}}}),                       # patched names collide: outside
+    ({"definitions": {"Thing": {"type": "object", "properties": {"x": {"type": "string"}}},
+                      "U": {"type": "array", "items": {"$ref": "#/definitions/Thing"}}}},
+     {"convert": [{"schema": {"type": "object", "properties": {"x": {"type": "string"}}}, "type": "::my::Thing", "impls": []}]}),
+]
+
+
+def run_settings(n=120, seed=1, tag="convert_check_s", per_doc=2):
+    """K3 for Algo/ConvertS.v: documents x settings; `convert_doc_s ascii_classes S D = Some <real space>`
+    whenever `in_frag_s ascii_classes S D = true`."""
+    vlib.build_harness(bins=("vh",))
+    dev = os.environ.get("CONVERT_DEV_COQ")
+    if dev:
+        vlib.COQ = dev
+    else:
+        ok, out = vlib.coq_make(["theories/Algo/ConvertS.vo"])
+        if not ok:
+            raise RuntimeError(out[-3000:])
+    rnd = random.Random(seed * 7919 + 13)
+    base = curated() + random_docs(n, seed + 100)
+    g0 = vlib.run_vh("gen", [{"settings": {}, "steps": [{"op": "root", "doc": d}], "code": False} for d in base])
+    pairs = list(CURATED_SETTINGS)
+    for f in sorted(glob.glob(os.path.join(CORPUS, "settings", "*.json"))):     # curated (document, settings) pairs
+        for c in json.load(open(f)):
+            if (c["doc"], c["settings"]) not in pairs:
+                pairs.append((c["doc"], c["settings"]))
+    for d, g in zip(base, g0):
+        if not g.get("all_ok"):
+            continue
+        for _ in range(per_doc):
+            st = settings_for(rnd, d, g["dump"])
+            if st:
+                pairs.append((d, st))
+    gens = vlib.run_vh("gen", [{"settings": st, "steps": [{"op": "root", "doc": d}], "code": False} for d, st in pairs])
+    hdr = HEADER.replace("Algo.Convert.", "Algo.Convert Algo.ConvertS.")
+    d = os.path.join(vlib.WORK, "cases", tag)
+    os.makedirs(d, exist_ok=True)
+    for f in os.listdir(d):
+        os.unlink(os.path.join(d, f))
+    verdict, paths, shard = {}, [], 120
+    for k in range(0, len(pairs), shard):
+        body = [hdr]
+        for i in range(k, min(k + shard, len(pairs))):
+            doc, st = pairs[i]
+            try:
+                body.append("Definition D_%d : defs := %s.\nDefinition S_%d : csettings := %s.\n"
+                            % (i, tocoq.cdefs(doc["definitions"]), i, csettings(st)))
+            except tocoq.Unsupported:
+                verdict[i] = "UNSUPPORTED"
+                continue
+            if gens[i].get("all_ok"):
+                body.append("Definition T_%d : space := %s.\n" % (i, tocoq.cspace(gens[i]["dump"])))
+                goal = "convert_doc_s ascii_classes S_%d D_%d = Some T_%d" % (i, i, i)
+            else:
+                goal = "False"
+            body.append('Goal True. tryif (assert (in_frag_s ascii_classes S_%d D_%d = true) by (vm_compute; reflexivity)) '
+                        'then (tryif (assert (%s) by (vm_compute; reflexivity)) then idtac "R %d OK" else idtac "R %d MISMATCH") '
+                        'else (tryif (assert (%s) by (vm_compute; reflexivity)) then idtac "R %d OUT_EQ" else idtac "R %d OUT"). '
+                        'Abort.\n' % (i, i, goal, i, i, goal, i, i))
+        p = os.path.join(d, "convs_%d.v" % (k // shard))
+        open(p, "w").write("".join(body))
+        paths.append(p)
+
+    def one(p):
+        rc, out, err = vlib.coqc_file(p, 900)
+        if rc != 0:
+            raise RuntimeError("coqc failed on %s: %s" % (p, (out + err)[-3000:]))
+        return out
+    from concurrent.futures import ThreadPoolExecutor
+    with ThreadPoolExecutor(max_workers=min(8, vlib.NCPU)) as ex:
+        for out in ex.map(one, paths):
+            for m in re.finditer(r"^R (\d+) (OK|MISMATCH|OUT_EQ|OUT)\s*$", out, re.M):
+                verdict[int(m.group(1))] = m.group(2)
+    res = {"total": len(pairs), "in_frag": 0, "out": 0, "out_model_equal": 0, "mismatches": [],
+           "kinds": {"replace": 0, "convert": 0, "patch": 0}}
+    for i, (doc, st) in enumerate(pairs):
+        v = verdict.get(i, "MISSING")
+        if v == "OK":
+            res["in_frag"] += 1
+            for kk in res["kinds"]:
+                res["kinds"][kk] += kk in st
+        elif v in ("OUT", "OUT_EQ"):
+            res["out"] += 1
+            res["out_model_equal"] += v == "OUT_EQ"
+        elif v != "UNSUPPORTED":
+            g = gens[i]
+            res["mismatches"].append({"index": i, "verdict": v, "doc": doc, "settings": st,
+                                      "real": "ok" if g.get("all_ok") else g.get("steps")})
+    return res
+
+
 # ---------------------------------------------------------------- for the property checks
 FRAGMENT_PROPS = {            # property -> (module, theorem-name prefix)
     "C02": ("Props.C02F", "C02F_"),
     "C05": ("Props.C05F", "C05F_"),
     "C03": ("Props.C03F", "C03F_"),
+    "C14": ("Props.C14F", "C14F_"),      # the model under settings (Algo/ConvertS.v); K3 = run_settings
 }
 
 
@@ -418,6 +625,18 @@ def convert_obligations(ctx, prop, n=None, exhaustive_docs=None, k3=True):
     if not k3:
         return None
     quick = getattr(ctx, "tier", "quick") == "quick"
+    if prop == "C14":
+        res = run_settings(n=n if n is not None else (60 if quick else 300), seed=ctx.seed,
+                           tag="c14_convert_%s" % ("q" if quick else "t"))
+        ctx.oblige("correspondence K3 under settings: ConvertS.convert_doc_s = real type space (exact term equality) on "
+                   "%d (document, settings) pairs of the fragment (replace %d, convert %d, patch %d)"
+                   % (res["in_frag"], res["kinds"]["replace"], res["kinds"]["convert"], res["kinds"]["patch"]),
+                   not res["mismatches"] and min(res["kinds"].values()) > 0,
+                   json.dumps(res["mismatches"][:2], default=str)[:1500])
+        ctx.coverage["convert_settings_pairs"] = res["in_frag"]
+        ctx.coverage["convert_settings_outside"] = res["out"]
+        ctx.evaluations += res["in_frag"]
+        return res
     res = run(n=n if n is not None else (60 if quick else 400), seed=ctx.seed,
               tag="%s_convert_%s" % (prop.lower(), "q" if quick else "t"),
               exhaustive_docs=(not quick) if exhaustive_docs is None else exhaustive_docs)
@@ -441,7 +660,16 @@ def main():
     ap.add_argument("--tag", default="convert_check")
     ap.add_argument("--no-exhaustive", action="store_true")
     ap.add_argument("--show", type=int, default=5)
+    ap.add_argument("--settings", action="store_true", help="K3 under settings (Algo/ConvertS.v)")
     a = ap.parse_args()
+    if a.settings:
+        res = run_settings(a.n, a.seed, a.tag + "_s")
+        print(json.dumps({k: v for k, v in res.items() if k != "mismatches"}, indent=1))
+        print("settings: compared (in fragment, exact equality): %d   outside: %d   mismatches: %d"
+              % (res["in_frag"], res["out"], len(res["mismatches"])))
+        for m in res["mismatches"][: a.show]:
+            print("MISMATCH", json.dumps(m)[:2500])
+        sys.exit(0 if not res["mismatches"] else 1)
     res = run(a.n, a.seed, a.tag, not a.no_exhaustive)
     print(json.dumps({k: v for k, v in res.items() if k not in ("mismatches", "reuse_in_frag")}, indent=1))
     print("compared (in fragment, exact equality): %d   outside the fragment: %d   mismatches: %d"
